@@ -457,6 +457,7 @@ def gen_midframe(rng, knobs=None):
 
 RAISE_POLICIES = [
     ('rr', {'raise': True}), ('rr', {'mode': 'error'}), ('fnf', {'raise': True}), ('push', {'raise': True}),
+    ('rr', {'mode': 'cancelled'}), ('rr', {'mode': 'cancel_soon'}),
     ('stream', {'raise': True}), ('stream', {'src': 'scripted', 'pub_raise_in': ['subscribe']}),
     ('stream', {'src': 'scripted', 'pub_raise_in': ['request']}), ('stream', {'src': 'scripted', 'pub_raise_in': ['cancel']}),
     ('stream', {'src': 'generator', 'items': [[5, 0], [6, 0], [7, 0]], 'raise_at': 1, 'complete_on_last': True}),
